@@ -141,6 +141,13 @@ def run(repo, chk):
     ok = bool(inst) and bool(act) and all(not g.path_exists(g.entry, a, avoid=inst) for a in act)
     chk.ob("R10.5", "probe.Probe._enter:tooling-and-verification-before-activation-counts", ok, en.where,
            "the selectors are tooled and verified before the probe is marked activated (a refusal leaves the probe unused)")
+    from ..pairing import contextvars_of, journal_findings
+    for jq in ("probe.Probe._install_tooling", "overlay.autotool"):
+        jf = repo.func(jq)
+        for journal, res, site, ok_, detail in journal_findings(repo, jf, cg, contextvars_of(repo)):
+            chk.ob("R10.5", f"{jq}:refusal-undoes-exactly-what-was-done[{journal}:{site}]", ok_, jf.where,
+                   f"when an activation is refused, {jq} undoes exactly the tooling that had completed (journal `{journal}`): the counters of the functions are where they were, so the next valid activation "
+                   "finds the function instrumented and succeeds" if ok_ else detail)
     it = repo.func("probe.Probe._install_tooling")
     chk.ob("R10.5", "probe.Probe._install_tooling:autotool-every-selector", any(isinstance(n, ast.For) and norm(n.iter) == "self._selectors"
            and any(isinstance(c, ast.Call) and is_name(c.func, "autotool") for c in ast.walk(n)) for n in ast.walk(it.node)), it.where, "every selector of the probe goes through autotool (hence verify)")
